@@ -4,6 +4,14 @@ import json
 
 def replay(w):
     kind = w["kind"]
+    if kind == "build-injected":
+        import check_build
+
+        return check_build.replay_injected(w)
+    if kind == "build":
+        import check_build
+
+        return check_build.replay_witness(w)
     if kind == "rewrite":
         import random
 
